@@ -426,6 +426,14 @@ def _through_clikit(make_raw):
         return {"verbosity": x.verbosity, "quiet": x.is_quiet(), "interactive": x.is_interactive(),
                 "ansi": type(x.output.formatter).__name__}
     out["io"] = _guard(io)
+
+    def run():
+        # the whole run with the default configuration (its help command resolves the line a second time, after
+        # deleting its own name from the tokens): status and page must not depend on how the line was given
+        o, e = BufferedOutputStream(), BufferedOutputStream()
+        status = app.run(make_raw(), StringInputStream(""), o, e)
+        return {"status": status, "out": o.fetch(), "err": e.fetch()}
+    out["run"] = _guard(run)
     return out
 
 
@@ -566,7 +574,7 @@ def oracle(case, obs):
         if v:
             return v
     if "via_string" in obs:
-        for key in ("parse_strict", "parse_lenient", "resolve", "io"):
+        for key in ("parse_strict", "parse_lenient", "resolve", "io", "run"):
             v = _same(obs["via_string"][key], obs["via_argv"][key], "%s of %r" % (key, s))
             if v:
                 return v
